@@ -312,6 +312,10 @@ impl Memo {
     }
 }
 impl Group for Memo {
+    // a real server / real sockets with read timeouts: a failure counts if it shows again when the same case is re-run
+    fn timing_sensitive(&self) -> bool {
+        true
+    }
     fn name(&self) -> &'static str {
         "c06.memo"
     }
